@@ -67,3 +67,36 @@ void h_lemma_bucket_contiguous(void) {
     __CPROVER_assert(!((r1 < d2 && d2 < r2) || (r2 < d2 && d2 < r1)), "C27.lemma: no foreign dummy separates two keys of one bucket");
     VX_REACH_GUARD();
 }
+
+/* ---------- C17, split-list part: growing the bucket table never loses or duplicates elements because no element moves.
+   (L) For every hash h and k < 63, with b = h mod 2^k (bucket under the old size) and b2 = h mod 2^(k+1) (under the new size):
+   b2 == b, or b2 is a new bucket whose parent is b; the new bucket's dummy lies between the old bucket's dummy and the key.
+   So a key inserted under size 2^k is reached under size 2^(k+1) from the new bucket's dummy — or, while that bucket is still
+   being initialised, from its parent's. */
+void h_lemma_growth(void) {
+    size_t h, k; __CPROVER_assume(k < 63);
+    size_t b = c_bucket_no(k, h), b2 = c_bucket_no(k + 1, h);
+    if (b2 != b) {
+        __CPROVER_assert(c_parent_bucket(b2) == b, "C17.lemma: after doubling, the key's new bucket is the old one or a child of the old one");
+        __CPROVER_assert(c_dummy_hash(b) < c_dummy_hash(b2), "C17.lemma: the child bucket's dummy sorts after the parent's");
+    }
+    __CPROVER_assert(c_dummy_hash(b2) < c_regular_hash(h), "C17.lemma: the key sorts after its new bucket's dummy (it is reachable from it without being moved)");
+    VX_REACH_GUARD();
+}
+/* inc_item_count (sequential): the table only doubles, never beyond the bucket-table capacity, and the resize threshold is
+   bucket count x load factor (or "never" once the table cannot grow) */
+void w_inc_item_count(size_t* log2, size_t* maxcnt, size_t* items, size_t cap, size_t lf);
+void h_inc_item_count(void) {
+    size_t sz, maxcnt, items, capl, lf;
+    __CPROVER_assume(sz <= capl && capl <= 60 && (lf == 1 || lf == 2 || lf == 4) && items < ((size_t)1 << 62));
+    size_t cap = (size_t)1 << capl, cnt = (size_t)1 << sz;
+    __CPROVER_assume(maxcnt == cnt * lf || maxcnt == ~(size_t)0);
+    size_t sz1 = sz, max1 = maxcnt, it1 = items;
+    w_inc_item_count(&sz1, &max1, &it1, cap, lf);
+    __CPROVER_assert(it1 == items + 1, "C17.inc_item_count: counts the new item");
+    __CPROVER_assert(sz1 == sz || sz1 == sz + 1, "C17.inc_item_count: the bucket count stays or doubles");
+    __CPROVER_assert(((size_t)1 << sz1) <= cap, "C17.inc_item_count: never grows beyond the bucket-table capacity");
+    __CPROVER_assert(sz1 == sz || (items + 1 > maxcnt && cnt < cap), "C17.inc_item_count: doubles only when the load threshold is exceeded and the table can grow");
+    __CPROVER_assert(max1 == (((size_t)1 << sz1) * lf) || max1 == ~(size_t)0, "C17.inc_item_count: the threshold is bucket count x load factor (or never, once the table cannot grow)");
+    VX_REACH_GUARD();
+}
